@@ -64,6 +64,15 @@ func ipamConcurrentScenariosB(tier string, cloud bool, b map[string]int) []*Scen
 		s.Weight = 6
 		sc = append(sc, s)
 	}
+	// lagging informer cache (one preemption less: four threads)
+	lb := map[string]int{}
+	for k, v := range b {
+		lb[k] = v
+	}
+	if lb["preempt"] > 1 {
+		lb["preempt"]--
+	}
+	sc = append(sc, famLag(cloud, lb)...)
 	if tier == "thorough" {
 		sc = append(sc, famRecreate(cloud, b, "syncpodips")...)
 		sc = append(sc, famRecreate(cloud, b, "run-new")...)
